@@ -204,6 +204,14 @@ def check(chk, fx, rule, name, optional=False):
         conds = {(k[0], rename_text(mp, k[1])): {frozenset((rename_text(mp, a), p) for a, p in conj) for conj in d}
                  for k, d in conds.items()}
         nodes = {(k[0], rename_text(mp, k[1])): v for k, v in nodes.items()}
+    # a call of a local lambda (a helper the maintainer wrote inside the function) is not looked through: unknown shape
+    ref_texts = {k[1] for k in ref} | {a for d in ref.values() for conj in d for a, _ in conj}
+    for k, d in conds.items():
+        for t in [k[1]] + [a for conj in d for a, _ in conj]:
+            if "<lambda>(" in t and t not in ref_texts:
+                chk.defer_incomplete("%s: %s now calls a local lambda (%s): not looked through, not compared" % (
+                    rule, f.o["n"], t[:60]))
+                return f
     expected = {k: (v, g["contract"]) for k, v in ref.items()}
     before = len(chk.violations)
     PS.compare(chk, rule, f, f.body, conds, nodes, expected, shorten=lambda s: s[:160])
